@@ -198,7 +198,7 @@ func checkC12(c *Ctx) {
 	}
 
 	// R12.4
-	c.Rule("R12.4", "runtime magic value and entry-offset key: seed bytes when seeded, the runtime's GarbleActionID otherwise", 2)
+	c.Rule("R12.4", "runtime magic value and entry-offset key: seed bytes when seeded, the GarbleActionID of the package they are compiled into otherwise", 2)
 	rh := w.Fn("runtimeHashWithCustomSalt")
 	if rh == nil {
 		c.Undecided("R12.4", "runtimeHashWithCustomSalt", "", "anchor function not found")
@@ -219,8 +219,9 @@ func checkC12(c *Ctx) {
 					switch {
 					case sl.Fields["seedFlag.bytes"]:
 						deps = append(deps, "seed")
-					case sl.Fields["listedPackage.GarbleActionID"] && sl.Consts[`"runtime"`]:
-						deps = append(deps, "runtime.GarbleActionID")
+					case sl.Fields["listedPackage.GarbleActionID"]:
+						// of the package named by a constant or by the caller (R06.6 checks which)
+						deps = append(deps, "pkg.GarbleActionID")
 					case len(sl.Params) == 1:
 						deps = append(deps, "salt")
 					default:
@@ -229,7 +230,7 @@ func checkC12(c *Ctx) {
 				}
 			}
 			sort.Strings(deps)
-			want := "runtime.GarbleActionID,salt"
+			want := "pkg.GarbleActionID,salt"
 			key := "runtimeHashWithCustomSalt without -seed"
 			if seeded {
 				want, key = "salt,seed", "runtimeHashWithCustomSalt with -seed"
